@@ -23,7 +23,7 @@ theorem C02_source_walk_true_ranges (mask : List Bool) :
   -- model's loop variables (the variables are the normalised names of FcGen/Tables.lean)
   let Inv : Nat → Bool → St → Prop := fun bg inb st =>
     st.env.lookup "v0" = some (.list (mask.map .bool)) ∧ st.env.lookup "v1" = some (.bool true) ∧
-    st.env.lookup "v2" = some (.int bg) ∧ st.env.lookup "v4" = some (.bool inb)
+    st.env.lookup "v3" = some (.int bg) ∧ st.env.lookup "v2" = some (.bool inb)
   have key := forLoop_walkRuns_all mask Inv hf
   obtain ⟨st', rfl, h2⟩ := key (by simp [Inv, List.lookup]) (by
     -- one iteration
